@@ -81,8 +81,8 @@ def site_of(g, rec):
             else:
                 # which item is this generated line in?
                 it = None
-                for iid, (a, b) in g.body_ranges.items():
-                    if a - 60 <= ln - 1 <= b + 2: it = iid
+                for iid, (a, b) in g.item_ranges.items():
+                    if a <= ln - 1 <= b: it = iid
                 if "OBL:" not in g.lines[ln - 1]:
                     sites.append({"item": it, "file": None, "line": None, "stmt": " ".join(g.lines[ln - 1].split())[:160]})
     return sites
@@ -90,8 +90,8 @@ def site_of(g, rec):
 def item_of_failure(g, rec):
     """the overlay item (generated function) in which the failing obligation was checked"""
     for ln in rec.get("sites", []):
-        for iid, (a, b) in g.body_ranges.items():
-            if a - 80 <= ln - 1 <= b + 2:
+        for iid, (a, b) in g.item_ranges.items():
+            if a <= ln - 1 <= b:
                 return iid
     return None
 
